@@ -90,6 +90,8 @@ def unit_cases(chk, rng, n):
         if has and rng.random() < 0.25:        # an unresolved [[ref]] (an <a> without href) before the real link
             pre = "<p>see <a>nosuch</a> and " + pre
             post = post + "</p>"
+        if not has and not dead and rng.random() < 0.25:   # plain text with a slash: returned unchanged
+            pre, href, post = "", rng.choice(["<p>zq4w</p>", "integer(kind=8/2)", "a/b", "len(\"</td>\")", "../x"]), ""
         if not has and rng.random() < 0.2:     # only target-less links: returned unchanged
             pre, href, post, dead = "", rng.choice(["<p>see <a>nosuch</a> here</p>", "<a>x</a>/<a>y</a>",
                                                    "<a>nosuch</a>"]), "", True
@@ -107,9 +109,10 @@ def unit_cases(chk, rng, n):
         r = rng.random()
         if r < 0.45:
             ctx = rng.choice(URLS)
-            out = R.impl_doc_link(ROOT, ctx, tgt)
+            via = rng.random() < 0.3        # context without URL: the nearest parent with a URL counts
+            out = R.impl_doc_link(ROOT, ctx, tgt, via_parent=via)
             add(f"CDocLink {coq_str(ROOT)} {coq_str(ctx.partition('#')[0])} {coq_str(tpath)} {frag} {coq_str(out)}",
-                {"f": "doc_link", "ctx": ctx, "target": tgt, "impl": out})
+                {"f": "doc_link", "ctx": ctx, "via_parent": via, "target": tgt, "impl": out})
         elif r < 0.8:
             cur = ROOT + "".join("/" + c for c in (["page"] + clean_rel(rng, 3) if rng.random() < 0.8 else []))
             out = R.impl_doc_link(ROOT, None, tgt, current=cur)
@@ -159,19 +162,8 @@ def url_cases(chk, rng, nproj):
 
 def classify(p, spec):
     """known-finding key for one walker problem, keyed by (page class / template, href pattern,
-    option combination); None = not a known finding"""
-    o = spec["options"]
-    pat, prob, pc, before = p["pattern"], p["problem"], p["page_class"], p.get("before", "")
-    if prob == "missing-fragment" and pc == "interface/*" and pat == "../interface/*.html#moduleprocedure-*":
-        return "genint-sidebar-fragment"
-    if prob == "missing-target" and re.fullmatch(r"(\.\./)*sourcefile/\*\.html", pat) and o["incl_src"] == "false":
-        return "file-ref-without-incl-src"
-    if prob == "missing-target" and p["url"].startswith("doc/") and o["proc_internals"] == "true" \
-            and pc in ("proc/*", "program/*", "interface/*"):
-        return "doc-link-relative-to-cwd"
-    if prob == "missing-target" and "private" not in o["display"] and \
-            (pat == "../type/*.html#boundprocedure-*" or (pat == "*.html#boundprocedure-*" and pc == "type/*")):
-        return "hidden-parent-type-binding"
+    option combination); None = not a known finding.  All recorded C09 findings are repaired: every
+    walker problem is a violation."""
     return None
 
 
@@ -189,10 +181,7 @@ FIXED_WITNESSES = {
         {"src/m.f90": "module m\n  type :: t\n  contains\n    procedure, nopass :: b => p\n      !! see [[nosuch]] here\n"
                       "  end type t\ncontains\n  subroutine p()\n  end subroutine p\nend module m\n"}, {},
         lambda probs, err: bool(err)),
-}
-
-WITNESSES = {
-    # open findings -- key: (files, options, predicate on (problems, error))
+    # repaired later (regression inputs)
     "genint-sidebar-fragment": (
         {"src/m.f90": "module m\n  interface g\n    module procedure p, q\n  end interface g\ncontains\n"
                       "  subroutine p(a)\n    integer :: a\n  end subroutine p\n"
@@ -212,6 +201,9 @@ WITNESSES = {
                       "  subroutine p()\n  end subroutine p\nend module m\n"}, {"display": ["public"]},
         lambda probs, err: any(p["problem"] == "missing-target" and "#boundprocedure-" in p["url"] for p in probs)),
 }
+
+
+WITNESSES = {}      # open findings: none
 
 
 def run_files(files, options):
@@ -387,7 +379,7 @@ def run(chk):
             chk.violation("failing-input", {"what": f"repaired defect {key} is back", "files": files,
                                             "options": options, "problems": probs[:5], "error": err}, True)
     chk.extra["witness_replay"] = {}
-    for key, (files, options, pred) in WITNESSES.items():
+    for key, (files, options, pred) in WITNESSES.items():       # open findings (none at present)
         probs, err = run_files(files, options)
         still = bool(pred(probs, err))
         chk.extra["witness_replay"][key] = "still fails" if still else "no longer fails"
